@@ -8,10 +8,11 @@ import warnings
 
 from hypothesis import strategies as st
 
-from ..common import crash_signature, digest, grammar, has_error, leaf_starting_at, nodes_preorder, short
+from ..common import VERSIONS, crash_signature, digest, grammar, has_error, leaf_starting_at, nodes_preorder, short
 from ..engine import Outcome, Prop
 from ..gen import text as T
 from ..gen import valid as V
+from ..oracle import client
 
 PYV = '%d.%d' % sys.version_info[:2]
 
@@ -376,17 +377,22 @@ class C14(Prop):
     budgets = {'quick': 12000, 'thorough': 1200000}
     min_nontrivial_fraction = 0.05
 
+    def teardown_shard(self):
+        client.close_all()
+
     def strategy(self, tier):
         kinds = ('repo', 'stdlib' + PYV)
-        return st.fixed_dictionaries({'code': V.candidates(kinds)})
+        # grammar version: the reference's own half of the time, otherwise any shipped grammar (cross-grammar clause, see check)
+        gv = st.one_of(st.just(PYV), st.sampled_from(VERSIONS))
+        return st.fixed_dictionaries({'code': V.candidates(kinds), 'gv': gv})
 
     def enumerate(self, tier, seed):
         files = T.corpus_files('stdlib' + PYV) + T.corpus_files('repo')
         step = 40 if tier == 'quick' else 2
-        for f in files[seed % step::step]:
+        for i, f in enumerate(files[seed % step::step]):
             code = T.read_text(f)
             if len(code) < 150000:
-                yield {'code': code}
+                yield {'code': code, 'gv': PYV if i % 2 == 0 else VERSIONS[(seed + i // 2) % len(VERSIONS)]}
 
     def check(self, case):
         code = case['code']
@@ -396,7 +402,19 @@ class C14(Prop):
             facts = Facts(code)
         except (SyntaxError, ValueError, RecursionError, MemoryError, OverflowError, tokenize.TokenError, IndentationError):
             return Outcome(excluded='reference rejects')
-        g = grammar(PYV)
+        gv = case.get('gv', PYV)
+        if gv != PYV:
+            # Cross-grammar clause: the helpers are version-independent code that walks version-dependent tree shapes
+            # (argument/namedexpr_test/decorator/subscript/async nodes differ between the grammar files).  The binding facts of a
+            # program do not depend on the interpreter version, so when CPython gv accepts the program too (for <= 3.7 also 3.8,
+            # which does not skip dead blocks) the facts of the reference AST are the facts for the tree of grammar gv as well.
+            for mm in ((client.JUDGE[gv], '3.8') if client.JUDGE[gv] in ('3.6', '3.7') else (client.JUDGE[gv],)):
+                o = client.oracle(mm)
+                if o is None:
+                    return Outcome(excluded='interpreter %s not installed' % mm)
+                if not o.ask(op='compile', src=code).get('ok'):
+                    return Outcome(excluded='CPython %s rejects (cross-grammar case)' % mm)
+        g = grammar(gv)
         try:
             m = g.parse(code)
         except RecursionError:
@@ -415,16 +433,19 @@ class C14(Prop):
             if any('/parso/' in f.filename for f in tb[-3:]):
                 return Outcome(fail=crash_signature(e), nontrivial=True, key=digest(code))
             raise
+        if fail is not None and gv != PYV:
+            fail = (fail[0], 'grammar %s: %s' % (gv, fail[1]))
         feats = set(info['feats'])
+        feats.add('grammar' + gv)
         if ':=' in code:
             feats.add('walrus')
         if '*' in code and '=' in code:
             feats.add('maybe-star-target')
-        return Outcome(fail=fail, nontrivial=bool(feats), classes=sorted(feats), key=digest(code),
+        return Outcome(fail=fail, nontrivial=bool(feats - {'grammar' + gv}), classes=sorted(feats), key=digest(code + gv),
                        units=info['definitions'] + info['functions'] + info['imports'] + 1)
 
     def sample_repr(self, case):
-        return {'code': short(case['code'], 240)}
+        return {'grammar': case.get('gv', PYV), 'code': short(case['code'], 240)}
 
 
 PROP = C14()
